@@ -380,8 +380,18 @@ def _check_main(ctx, rep: Report):
         bad.append("collision loop not found")
     else:
         loop = loops[0]
-        if ast.unparse(loop.iter) != "metadata.attrs.items()":
+        it_src = ast.unparse(loop.iter)
+        while it_src.startswith(("list(", "tuple(", "sorted(")) and it_src.endswith(")"):       # a snapshot of the same items
+            it_src = it_src[it_src.index("(") + 1:-1]
+        if it_src not in ("metadata.attrs.items()", "metadata.attrs"):
             bad.append(f"iterates `{ast.unparse(loop.iter)}` instead of all attributes (metadata.attrs)")
+        # the fallback name is written on a specification this class owns, or on a copy of an inherited one
+        renames = [n for n in ast.walk(loop) if isinstance(n, ast.Assign) and isinstance(n.targets[0], ast.Attribute) and n.targets[0].attr == "item_name"]
+        for rn in renames:
+            guarded_copy = any(isinstance(x, ast.If) and ".owner" in ast.unparse(x.test) and "copy" in ast.unparse(x) and x.lineno < rn.lineno
+                               for x in ast.walk(loop))
+            if not guarded_copy:
+                bad.append("the fallback name is written onto the attribute specification in place: an inherited specification is shared with the parent class, whose metadata (and the names its element helpers dissolve under) change when a subclass is decorated")
         for n in ast.walk(loop):
             if isinstance(n, ast.Compare) and isinstance(n.ops[0], (ast.In, ast.NotIn)):
                 cont = ast.unparse(n.comparators[0])
